@@ -30,11 +30,19 @@ def c17Wave (j : Json) (k : String) : M (WaveSel Rat) :=
     | some s => (asRat s).map .scalar
     | none => (fRats v "arr").map .arr
 
-def c17Source (j : Json) : M (Sampled Rat) := do
-  match ← fStr j "kind" with
-  | "table" => pure (← c17Table j).toSampled
-  | "const" => pure (constSampled (← fRat j "amp"))
-  | s => .error s!"unknown source kind {s}"
+def c17Source (j : Json) : M (Except Err (Sampled Rat)) := do
+  let base ← match ← fStr j "kind" with
+    | "table" => pure (← c17Table j).toSampled
+    | "const" => pure (constSampled (← fRat j "amp"))
+    | s => .error s!"unknown source kind {s}"
+  match fOpt j "z" with
+  | none => pure (.ok base)
+  | some zj => do
+      let z ← asRat zj
+      let conserve := match fOpt j "ztype" with
+        | some (.str "conserve_flux") => true
+        | _ => false
+      pure (base.redshift z conserve)
 
 def c17MadauWave (j : Json) : M (MadauWave Rat) := do
   match ← fStr j "kind" with
@@ -88,6 +96,7 @@ def dispatchC17M (op : String) (j : Json) : M Json := do
       let thr ← fRat j "thr"
       let at_ ← fRats j "at"
       let r : Except Err Json := do
+        let src ← src
         let c ← extinctionCurve transcQ law ebv wave
         let sp := applyCurve thr src c
         pure (Json.mkObj [("vals", jRats (at_.map sp.eval)), ("src", jRats (at_.map src.eval)),
